@@ -139,6 +139,137 @@ def callable_stream(ctx, res, n):
             res.violate("C12:reset-not-reevaluated", "reset does not evaluate the callable default anew", {"stream": "callable"})
 
 
+def callable_kinds_stream(ctx, res):
+    """every kind of callable a default can be given as — a function, a lambda, a class, a bound method, a functools.partial, an object
+    with __call__, a builtin — is evaluated for each configuration and again on reset; the configuration never holds the factory itself"""
+    import functools
+    import cincoconfig as cc
+
+    class Maker:
+        def __init__(self, out):
+            self.out = out
+            self.calls = 0
+
+        def __call__(self):
+            self.calls += 1
+            return copy.deepcopy(self.out)
+
+        def method(self):
+            self.calls += 1
+            return copy.deepcopy(self.out)
+
+    def plain_fn():
+        return "from-fn"
+
+    kinds = [("function", lambda: cc.StringField(default=plain_fn), "from-fn"),
+             ("lambda", lambda: cc.StringField(default=lambda: "from-lambda"), "from-lambda"),
+             ("class", lambda: cc.ListField(cc.IntField(), default=list), []),
+             ("builtin", lambda: cc.DictField(cc.StringField(), cc.IntField(), default=dict), {}),
+             ("bound-method", lambda: cc.StringField(default=Maker("from-method").method), "from-method"),
+             ("partial-str", lambda: cc.StringField(default=functools.partial(str, "from-partial")), "from-partial"),
+             ("partial-int", lambda: cc.IntField(default=functools.partial(int, "42")), 42),
+             ("partial-list", lambda: cc.ListField(cc.IntField(), default=functools.partial(list, (1, 2))), [1, 2]),
+             ("partial-dict", lambda: cc.DictField(cc.StringField(), cc.IntField(), default=functools.partial(dict, a=1)), {"a": 1}),
+             ("callable-object-str", lambda: cc.StringField(default=Maker("from-object")), "from-object"),
+             ("callable-object-list", lambda: cc.ListField(cc.StringField(), default=Maker(["x", "y"])), ["x", "y"]),
+             ("callable-object-untyped", lambda: cc.Field(default=Maker({"k": [1]})), {"k": [1]})]
+    for name, mk, want in kinds:
+        for depth in (0, 2):
+            s = cc.Schema()
+            holder = s
+            for lvl in range(depth):
+                holder = getattr(holder, "lvl%d" % lvl)
+            case = {"stream": "callable-kinds", "kind": name, "depth": depth}
+            res.case(stable(case), kind="callable-kinds:" + name)
+            try:
+                holder.x = mk()
+                holder.other = cc.IntField(default=3)
+                path = ".".join(["lvl%d" % l for l in range(depth)] + ["x"])
+                a, b = s(), s()
+                va, vb = a[path], b[path]
+                plain = lambda v: list(v) if isinstance(v, list) else (dict(v) if isinstance(v, dict) else v)
+                if plain(va) != want or plain(vb) != want or callable(va):
+                    res.violate("C12:fresh-default", "a freshly built configuration does not expose the declared default (a callable default was not evaluated)",
+                                dict(case, held=repr(va)[:80], want=F.enc_val(want)))
+                    continue
+                if cc.is_value_defined(a, path):
+                    res.violate("C12:fresh-defined", "a freshly built configuration reports a field as user-defined", dict(case, path=path))
+                if isinstance(va, (list, dict)) and va is vb:
+                    res.violate("C12:callable-shared", "callable default evaluated once and shared between configurations", case)
+                a[path] = {"function": "u", "lambda": "u", "bound-method": "u", "partial-str": "u", "callable-object-str": "u", "partial-int": 7}.get(name, copy.deepcopy(want))
+                cc.reset_value(a, path)
+                vr = a[path]
+                if plain(vr) != want or callable(vr) or cc.is_value_defined(a, path):
+                    res.violate("C12:reset-value", "reset did not restore the (evaluated) default value and the not-user-defined status", dict(case, held=repr(vr)[:80], want=F.enc_val(want)))
+            except Exception as e:  # noqa
+                res.violate("C12:fresh-default", "a schema whose default is a callable cannot be built / reset: %s" % type(e).__name__, dict(case, error=str(e)[:120]))
+
+
+def unnormalised_default_stream(ctx, res):
+    """declared defaults that are legitimate but not in validated form (other case than the declared transformation, surrounding blanks,
+    a number as text, a relative file name): a field left alone stays at its declared default and not user-defined while OTHER fields
+    are loaded, validated, assigned or reset, at every depth"""
+    import cincoconfig as cc
+    tmp = ctx.tmpdir()
+    makers = [("case", lambda: cc.StringField(transform_case="upper", default="abc"), "abc"),
+              ("strip", lambda: cc.StringField(transform_strip=True, default="  padded  "), "  padded  "),
+              ("int-text", lambda: cc.IntField(default="4096"), "4096"),
+              ("float-int", lambda: cc.FloatField(default=3), 3),
+              ("bool-text", lambda: cc.BoolField(default="yes"), "yes"),
+              ("filename", lambda: cc.FilenameField(startdir=tmp, default="rel/name.txt"), "rel/name.txt"),
+              ("loglevel", lambda: cc.LogLevelField(default="INFO"), "INFO"),
+              ("list-text", lambda: cc.ListField(cc.IntField(), default=lambda: ["1", "2"]), None)]
+    for name, mk, declared in makers:
+        for depth in (0, 2):
+            for history in ("load_tree-other", "loads-other", "validate", "assign-other", "reset-then-load-other", "load-empty-tree"):
+                s = cc.Schema()
+                holder = s
+                for lvl in range(depth):
+                    holder = getattr(holder, "lvl%d" % lvl)
+                try:
+                    holder.x = mk()
+                    holder.other = cc.IntField(default=3)
+                    cfg = s()
+                except Exception as e:  # noqa
+                    res.case(None, kind="unnormalised-default:setup-%s" % type(e).__name__)
+                    continue
+                pre = ["lvl%d" % l for l in range(depth)]
+                path = ".".join(pre + ["x"])
+                other = ".".join(pre + ["other"])
+                start = cfg[path]
+                start = list(start) if isinstance(start, list) else start
+                tree = {"other": 5}
+                for lvl in reversed(range(depth)):
+                    tree = {"lvl%d" % lvl: tree}
+                try:
+                    if history == "load_tree-other":
+                        cfg.load_tree(tree)
+                    elif history == "loads-other":
+                        cfg.loads(cc.ConfigFormat.get("json").dumps(cfg, tree), format="json")
+                    elif history == "validate":
+                        cfg.validate()
+                    elif history == "assign-other":
+                        cfg[other] = 9
+                        cfg.validate()
+                    elif history == "load-empty-tree":
+                        cfg.load_tree({})
+                    else:
+                        cfg[path] = cfg[path]
+                        cc.reset_value(cfg, path)
+                        cfg.load_tree(tree)
+                except Exception as e:  # noqa
+                    res.case(None, kind="unnormalised-default:history-raised")
+                    continue
+                now = cfg[path]
+                now = list(now) if isinstance(now, list) else now
+                case = {"stream": "unnormalised-default", "kind": name, "depth": depth, "history": history, "start": F.enc_val(start), "now": F.enc_val(now)}
+                res.case(stable(case), kind="unnormalised-default:" + name)
+                if cc.is_value_defined(cfg, path):
+                    res.violate("C12:untouched-became-defined", "a field that was neither assigned nor loaded is reported as user-defined after other fields were loaded / validated", case)
+                elif now != start or type(now) is not type(start):
+                    res.violate("C12:untouched-default-changed", "a field that was neither assigned nor loaded no longer holds the default it started with", case)
+
+
 def env_empty_stream(ctx, res, n):
     """a value loaded for a field whose environment variable is set but empty is held and user-defined"""
     import cincoconfig as cc
@@ -332,6 +463,8 @@ def run(ctx, n_quick=250, n_thorough=8000):
     res = Result()
     P.run_stream(ctx, res, "C12", ctx.n(n_quick, n_thorough), oracle, gen_ops=gen_ops)
     guard(res, "C12", callable_stream, ctx, res, ctx.n(3, 30))
+    guard(res, "C12", callable_kinds_stream, ctx, res)
+    guard(res, "C12", unnormalised_default_stream, ctx, res)
     guard(res, "C12", env_empty_stream, ctx, res, ctx.n(4, 60))
     guard(res, "C12", ctor_env_stream, ctx, res, ctx.n(120, 3000))
     guard(res, "C12", mutable_default_stream, ctx, res, ctx.n(40, 1500))
